@@ -112,6 +112,7 @@ type loopInfo struct {
 	measure   string
 	isRange   *ssa.Phi // rangeindex phi if any
 	pending   []*pendingObl
+	seenBacks int
 	entryState *State
 	frameKeys []string
 	frameCond map[string]string
@@ -214,6 +215,18 @@ func (vc *FuncVC) define(base, sort, term string) string {
 	return n
 }
 
+// defineMerged names a state merged at a control-flow join. Arrays become a
+// constant with an equation (patterns match selects on a constant, not on an
+// ite term); scalars stay macros.
+func (vc *FuncVC) defineMerged(base, sort, term string) string {
+	if !strings.HasPrefix(sort, "(Array") || !strings.HasPrefix(term, "(ite ") {
+		return vc.define(base, sort, term)
+	}
+	n := vc.fresh(base, sort)
+	vc.script.add(fmt.Sprintf("(assert (= %s %s))", n, term))
+	return n
+}
+
 func (vc *FuncVC) assume(f string) {
 	if f == "true" || f == "" {
 		return
@@ -295,20 +308,105 @@ func (vc *FuncVC) fieldKey(structT types.Type, fi int) (string, fieldInfo) {
 	sn := vc.eng.sortOf(structT)
 	k := "H:" + sn + "." + fis[fi].Name
 	vc.regKey(k, "(Array Int "+fis[fi].Sort+")")
+	vc.regKind(k, 1, fis[fi].Type, "")
 	return k, fis[fi]
+}
+
+// kname names the value class of a type inside a state key: all reference-like
+// types share one class (they share the sort Int but, unlike integers, never
+// exceed the allocation watermark).
+func (vc *FuncVC) kname(t types.Type) string {
+	switch t.Underlying().(type) {
+	case *types.Pointer, *types.Map, *types.Chan, *types.Signature:
+		return "Ref"
+	}
+	return vc.eng.sortOf(t)
+}
+
+// refProj returns the projection that yields the reference held by a value of
+// type t ("" = holds none, "id" = is one).
+func refProj(t types.Type) string {
+	switch t.Underlying().(type) {
+	case *types.Pointer, *types.Map, *types.Chan, *types.Signature:
+		return "id"
+	case *types.Interface:
+		return "i-val"
+	case *types.Slice:
+		return "s-arr"
+	}
+	return ""
+}
+
+type keyKind struct {
+	shape int    // 1: (Array Int V)   2: (Array Int (Array K V))
+	proj  string // "id", "i-val", "s-arr"
+	ksort string // index sort of the inner array (shape 2)
+}
+
+func (vc *FuncVC) regKind(key string, shape int, t types.Type, ksort string) {
+	if p := refProj(t); p != "" {
+		vc.eng.keyKinds[key] = keyKind{shape, p, ksort}
+	}
+}
+
+// heapWF: no cell of this version of the key holds a reference above the
+// allocation watermark (no dangling references to objects not yet allocated).
+func (vc *FuncVC) heapWF(key, term, alloc string) string {
+	return And(vc.nilMapFact(key, term), vc.heapWFRefs(key, term, alloc))
+}
+
+// nilMapFact: reference 0, the nil map, is an empty map in every state (reads
+// yield the zero value, the domain is empty, the length is 0). Writing to it
+// panics, so no store ever changes this.
+func (vc *FuncVC) nilMapFact(key, term string) string {
+	switch {
+	case strings.HasPrefix(key, "Ml:"):
+		return S("=", S("select", term, "0"), "0")
+	case strings.HasPrefix(key, "Md:"):
+		ks := vc.eng.mapKeySort[key]
+		return fmt.Sprintf("(forall ((j!n %s)) (! (not (select (select %s 0) j!n)) :pattern ((select (select %s 0) j!n))))", ks, term, term)
+	case strings.HasPrefix(key, "Mv:"):
+		ks := vc.eng.mapKeySort[key]
+		z := vc.eng.mapZero[key]
+		return fmt.Sprintf("(forall ((j!n %s)) (! (= (select (select %s 0) j!n) %s) :pattern ((select (select %s 0) j!n))))", ks, term, z, term)
+	}
+	return ""
+}
+
+func (vc *FuncVC) heapWFRefs(key, term, alloc string) string {
+	kk, ok := vc.eng.keyKinds[key]
+	if !ok {
+		return ""
+	}
+	proj := func(x string) string {
+		if kk.proj == "id" {
+			return x
+		}
+		return S(kk.proj, x)
+	}
+	// only cells of objects that exist: the cells of a reference above the
+	// watermark are unconstrained (a callee's fresh objects live there)
+	if kk.shape == 1 {
+		el := S("select", term, "i!w")
+		return fmt.Sprintf("(forall ((i!w Int)) (! (=> (<= i!w %s) (<= %s %s)) :pattern (%s)))", alloc, proj(el), alloc, el)
+	}
+	el := S("select", S("select", term, "i!w"), "j!w")
+	return fmt.Sprintf("(forall ((i!w Int) (j!w %s)) (! (=> (<= i!w %s) (<= %s %s)) :pattern (%s)))", kk.ksort, alloc, proj(el), alloc, el)
 }
 
 func (vc *FuncVC) elemKey(elemT types.Type) string {
 	s := vc.eng.sortOf(elemT)
-	k := "E:" + s
+	k := "E:" + vc.kname(elemT)
 	vc.regKey(k, "(Array Int (Array Int "+s+"))")
+	vc.regKind(k, 2, elemT, "Int")
 	return k
 }
 
 func (vc *FuncVC) cellKey(elemT types.Type) string {
 	s := vc.eng.sortOf(elemT)
-	k := "C:" + s
+	k := "C:" + vc.kname(elemT)
 	vc.regKey(k, "(Array Int "+s+")")
+	vc.regKind(k, 1, elemT, "")
 	return k
 }
 
@@ -320,11 +418,14 @@ func (vc *FuncVC) boxKey(sort string) string {
 
 func (vc *FuncVC) mapKeys(mt *types.Map) (kv, kd, kl string) {
 	ks, vs := vc.eng.sortOf(mt.Key()), vc.eng.sortOf(mt.Elem())
-	id := ks + ":" + vs
+	id := vc.kname(mt.Key()) + ":" + vc.kname(mt.Elem())
 	kv, kd, kl = "Mv:"+id, "Md:"+id, "Ml:"+id
 	vc.regKey(kv, fmt.Sprintf("(Array Int (Array %s %s))", ks, vs))
 	vc.regKey(kd, fmt.Sprintf("(Array Int (Array %s Bool))", ks))
 	vc.regKey(kl, "(Array Int Int)")
+	vc.regKind(kv, 2, mt.Elem(), ks)
+	vc.eng.mapKeySort[kv], vc.eng.mapKeySort[kd] = ks, ks
+	vc.eng.mapZero[kv] = vc.eng.zero(mt.Elem())
 	return
 }
 
